@@ -1050,8 +1050,12 @@ def solve_sylvester_KPM(
         )
 
     vecs_implicit = subspace_eigenvectors[-1]
+    # Only override the default energy tolerance if the user provided one.
+    diagonal_options = (
+        {"atol": solver_options["atol"]} if "atol" in solver_options else {}
+    )
     solve_sylvester_explicit = solve_sylvester_diagonal(
-        eigs, vecs_implicit, atol=solver_options.get("atol")
+        eigs, vecs_implicit, **diagonal_options
     )
 
     def solve_sylvester(Y: np.ndarray, index: tuple[int]) -> np.ndarray:
